@@ -2,10 +2,14 @@
    classes/system.py it relies on.  No proofs here.
 
    A frame (System) is reduced to what the path algebra observes: its order parameter
-   (first component), an opaque identity tag standing for (config file, index, energies),
-   the velocity-reversal flag, and an object identity [oid] used only to talk about
-   aliasing (Path.copy/reverse/__iadd__ allocate new System objects, paste_paths and
-   append do not). *)
+   (first component), the velocity-reversal flag, an object identity [oid] used only to
+   talk about aliasing (Path.copy/reverse/__iadd__ allocate new System objects,
+   paste_paths and append do not), and an opaque payload [ftag] standing for EVERYTHING
+   ELSE the System object carries: every other attribute in vars(frame) -- config,
+   order[1:], pos, vel, ekin, vpot, box, temperature and any attribute attached later.
+   The path algebra never looks inside the payload; System.copy() must carry it over
+   unchanged.  The C15 check encodes the whole of vars(frame) into it (one integer per
+   distinct content), so the theorems hold for arbitrary contents of those fields. *)
 From Coq Require Import ZArith List Bool Lia.
 Import ListNotations.
 Open Scope Z_scope.
@@ -31,7 +35,7 @@ Fixpoint append_all (p : path) (fs : list frame) : path * bool :=
               if ok then append_all p' r else (p', false)
   end.
 
-(* System.copy(): new object, same fields *)
+(* System.copy(): new object, same fields -- order, velocity flag and the whole payload *)
 Definition copy_frame (o : nat) (f : frame) : frame := mkF (ford f) (ftag f) (frev f) o.
 
 Fixpoint copy_frames (next : nat) (fs : list frame) : list frame :=
